@@ -587,7 +587,7 @@ String Json::stripComments(const String& data)
       if (*src == '\\' && src[1])
       {
         *(dest++) = *(src++);
-        goto checkStr;
+        continue; // the escaped character is copied by the loop increment, the literal goes on
       }
       if (*src == '"')
       {
